@@ -18,10 +18,13 @@ type TimedConn struct {
 	// BlockWrites: the peer has stopped draining; a Write blocks until the WRITE deadline (forever
 	// without one), like a socket whose buffers are full
 	BlockWrites bool
-	OnWrite     func(b []byte, at time.Time)
-	LastFeed    time.Time
-	WriteAt     []time.Time
-	Deadlines   []time.Duration // each SetDeadline, relative to the moment it was called
+	// WriteDelay: the peer takes the request slowly: a Write lasts this long (or fails at the WRITE
+	// deadline if that comes first)
+	WriteDelay time.Duration
+	OnWrite    func(b []byte, at time.Time)
+	LastFeed   time.Time
+	WriteAt    []time.Time
+	Deadlines  []time.Duration // each SetDeadline, relative to the moment it was called
 }
 
 func (c *TimedConn) Feed(b []byte) {
@@ -72,7 +75,23 @@ func (c *TimedConn) Write(b []byte) (int, error) {
 	c.WriteAt = append(c.WriteAt, now)
 	f := c.OnWrite
 	block := c.BlockWrites
+	delay := c.WriteDelay
 	c.mu.Unlock()
+	if delay > 0 {
+		end := now.Add(delay)
+		for time.Now().Before(end) {
+			c.mu.Lock()
+			wd, closed := c.wdeadline, c.closed
+			c.mu.Unlock()
+			if closed {
+				return 0, net.ErrClosed
+			}
+			if !wd.IsZero() && !time.Now().Before(wd) {
+				return 0, os.ErrDeadlineExceeded
+			}
+			time.Sleep(200 * time.Microsecond)
+		}
+	}
 	for block {
 		c.mu.Lock()
 		wd, closed := c.wdeadline, c.closed
